@@ -198,6 +198,10 @@ func doParsing(mp *msgParser) (err error) {
 	if fieldCount == 0 {
 		return parseError{OrigError: fmt.Sprintf("No Fields detected in %s", string(mp.rawBytes))}
 	}
+	if fieldCount < 3 {
+		// BeginString, BodyLength and MsgType are read into the first three slots unconditionally.
+		fieldCount = 3
+	}
 	if cap(mp.msg.fields) < fieldCount {
 		mp.msg.fields = make([]TagValue, fieldCount)
 	} else {
